@@ -91,6 +91,11 @@ def run(ck, rng, tier):
     for i, (mt, o) in enumerate(zip(meta, outs)):
         if o is None:
             continue
+        nf_ = None if o.get("nonterminating") else vf.first_nonfinite(o)
+        if nf_:
+            # finite in-domain data: every stored result is a finite number (tolerance comparisons below are blind to NaN)
+            ck.fail("CPCA", "not_finite", "the output `%s` holds NaN/Inf" % nf_, {"case": str(mt)[:3000]})
+            continue
         blocks, scaling, npc, nproc = mt
         nb, n = len(blocks), blocks[0].shape[0]
         ck.case(("cpca", nb, n, tuple(b.shape[1] for b in blocks), scaling, npc, repr(blocks[0][0].tolist())),
